@@ -186,6 +186,51 @@ func c09SuffixFams(nSuffix int) []c09Fam {
 	return out
 }
 
+// counter families: every repetition differs (cost that grows with the
+// number of DISTINCT tokens seen cannot show on a repeated unit)
+const cm = gen.CounterMark
+
+func tailSuffix(tail string) string { return gen.TailMark + tail + gen.TailMark }
+
+func c09ShapeFams() []c09Fam {
+	var out []c09Fam
+	for _, u := range []string{"w" + cm + ",", "'s" + cm + "',", "@v" + cm + ",", "w" + cm + " ", "f" + cm + "(1),", cm + ",", "a.w" + cm + ",", "`w" + cm + "`,", "1 or w" + cm + " ", "w" + cm + "=1 and ", "[w" + cm + "],", "/*" + cm + "*/1,", "$w" + cm + "$,", "w" + cm + ".", "0x" + cm + ","} {
+		for _, p := range []string{"", "'", "1 union select "} {
+			out = append(out, c09Fam{"sqli", scaleFam{p, u, ""}})
+		}
+	}
+	for _, f := range []scaleFam{{"", "<t" + cm + ">", ""}, {"", "<a b" + cm + "=c>", ""}, {"<a ", "b" + cm + "=c ", ""}, {"<a href='", "&#" + cm + ";", "'>"}, {"", "<a href=x" + cm + ">", ""}, {"<a ", "on" + cm + "=x ", ""}, {"", "</t" + cm + ">", ""},
+		{"x' ", "b" + cm + "=c ", ""}, {"", "<a href=j" + cm + ":>", ""}, {"", "<!--" + cm + "-->", ""}, {"<a ", "b" + cm + "='c' ", ""}} {
+		out = append(out, c09Fam{"xss", f})
+	}
+	// two different repeated units: a construct repeated, then a long tail
+	for _, u := range []string{"'a',", "\"a\",", "`a`,", "'a' ", "/*a*/", "--a\n", "#a\n", "[a],", "@a,", "$t$a$t$,", "q'(a)',", "n'a',", "x'1f',", "a.b,", "1,", "a ", "(1),", "\\'", "''"} {
+		for _, t := range []string{"b", " ", "1", "\x00", "(", "\\"} {
+			out = append(out, c09Fam{"sqli", scaleFam{"", u, tailSuffix(t)}})
+		}
+	}
+	for _, u := range []string{"<b c=d>", "<b c='d'>", "<b>", "</b>", "<!--x-->", "<!x>", "<%x%>", "<![CDATA[x]]>", "a=b ", "a='b' ", "&#65;", "<b/>"} {
+		for _, t := range []string{"x", " ", "/", "\x00", "-", "a=", "'"} {
+			out = append(out, c09Fam{"xss", scaleFam{"", u, tailSuffix(t)}})
+			out = append(out, c09Fam{"xss", scaleFam{"<a ", u, tailSuffix(t)}})
+		}
+	}
+	// separator variants of multi-byte units: '/' , NUL, TAB, LF instead of the blank
+	for _, fm := range c09Catalogue() {
+		if len(fm.f.unit) < 3 || !strings.Contains(fm.f.unit, " ") || fm.f.suffix != "" {
+			continue
+		}
+		seps := []string{"/", "\x00", "\t", "\n"}
+		if fm.det == "sqli" {
+			seps = []string{"\t", "\n", "\x00", "\xa0", "/**/", "+"}
+		}
+		for _, sp := range seps {
+			out = append(out, c09Fam{fm.det, scaleFam{strings.ReplaceAll(fm.f.prefix, " ", sp), strings.ReplaceAll(fm.f.unit, " ", sp), ""}})
+		}
+	}
+	return out
+}
+
 // reduced pair alphabets for the quick tier
 var c09QuickAtomsSQL = []string{"'", "\"", "`", "\\", "/", "*", "-", "#", "$", "@", "[", "(", ")", ".", ",", ";", ":", "=", "&", " ", "\n", "\x00", "\x80", "a", "1", "q", "or", "not", "--", "/*"}
 var c09QuickAtomsHTML = []string{"<", ">", "/", "=", "'", "\"", "`", "!", "-", "?", "%", "]", "&", "#", ";", ":", "a", "0", "\x00", " "}
@@ -216,11 +261,11 @@ func c09Case(fm c09Fam, n int) core.Case {
 }
 
 func c09ParseCase(c core.Case) (c09Fam, int, bool) {
-	p := strings.Split(c.S, "|")
-	if len(p) != 3 {
+	pre, unit, suf, _, ok := gen.ParseScaleDesc(c.Desc)
+	if !ok {
 		return c09Fam{}, 0, false
 	}
-	return c09Fam{c.Kind, scaleFam{p[0], p[1], p[2]}}, int(c.A), true
+	return c09Fam{c.Kind, scaleFam{pre, unit, suf}}, int(c.A), true
 }
 
 func c09() *core.Check {
@@ -271,10 +316,11 @@ func c09() *core.Check {
 		// families that are only screened at two sizes; suspects get the full
 		// three-point measurement
 		screen := append(c09SuffixFams(5), c09QuickPairs()...)
+		screen = append(screen, c09ShapeFams()...)
 		s1, s2 := 4<<10, 32<<10
 		if r.Tier == "thorough" {
 			n, k = 64<<10, 5
-			screen = c09SuffixFams(len(c09Suffixes))
+			screen = append(c09SuffixFams(len(c09Suffixes)), c09ShapeFams()...)
 			a, b := c09PairCount()
 			for i := 0; i < a+b; i++ {
 				screen = append(screen, c09PairFam(i))
